@@ -148,7 +148,7 @@ Context {T U : Type} (dt : T) (du : U).
 Lemma apply_along_axis_wf (a : arr T) axis f r : apply_along_axis dt du a axis f = Ok r -> wf r.
 Proof.
   unfold apply_along_axis. intros H. do 5 inv_bind H. destruct x3 as [|first rest]; [discriminate|].
-  do 2 inv_bind H. destruct (axis =? 0); [now apply rollaxis_wf in H | now apply moveaxis_wf in H].
+  destruct (negb _); [discriminate|]. do 2 inv_bind H. destruct (axis =? 0); [now apply rollaxis_wf in H | now apply moveaxis_wf in H].
 Qed.
 
 End AlongWf.
